@@ -491,7 +491,12 @@ func RunC18(cfg Config) (*ShardResult, error) {
 					var grans []int
 					switch {
 					case lim.allCombos && n <= lim.exhaustive:
-						cs, grans = combos, []int{0, 1, 2}
+						// thorough: every (kind, shape) on every offset, granularity rotating with the offset;
+						// all three granularities on the structure-aligned offsets
+						cs, grans = combos, []int{(ok.k + oi) % 3}
+						if ok.aligned {
+							grans = []int{0, 1, 2}
+						}
 					case ok.aligned && (lim.allCombos || aligned[ok.k] && dr.Bool(0.15)):
 						cs, grans = combos, []int{0, 1, 2}
 					default:
